@@ -60,3 +60,72 @@ def option_masks(rng, tier, base=DEFAULT_MASK, algos=(0,), allow_bad=True):
         mk |= rng.getrandbits(2) << 16
         masks.append(mk)
     return masks
+
+
+# ---------------------------------------------------------------------------------------------------------------
+# graphs
+# ---------------------------------------------------------------------------------------------------------------
+
+def rand_multigraph(rng, nn, ne, loops=True):
+    edges = []
+    for _ in range(ne):
+        u = rng.randrange(nn)
+        v = rng.randrange(nn) if loops or nn == 1 else rng.choice([x for x in range(nn) if x != u])
+        edges.append((u, v))
+    return edges
+
+
+def spanning_forest(rng, nn, edges):
+    """random spanning forest (edge indices) by union-find over a shuffled edge order"""
+    parent = list(range(nn))
+
+    def find(x):
+        while parent[x] != x:
+            parent[x] = parent[parent[x]]
+            x = parent[x]
+        return x
+    order = list(range(len(edges)))
+    rng.shuffle(order)
+    forest = []
+    for i in order:
+        u, v = edges[i]
+        a, b = find(u), find(v)
+        if a != b:
+            parent[a] = b
+            forest.append(i)
+    return forest
+
+
+def cycle_matrix(nn, edges, forest, coforest, signed=False, rev=None):
+    """fundamental cycle matrix (rows: forest order, columns: coforest order); generator-side helper, not an oracle"""
+    adj = {}
+    for k, i in enumerate(forest):
+        u, v = edges[i]
+        if rev and rev[i]:
+            u, v = v, u
+        adj.setdefault(u, []).append((v, k, 1))
+        adj.setdefault(v, []).append((u, k, -1))
+    cols = []
+    for j in coforest:
+        s, t = edges[j]
+        if rev and rev[j]:
+            s, t = t, s
+        col = [0] * len(forest)
+        # DFS path s -> t
+        stack = [(s, None, [])]
+        seen = {s}
+        found = None
+        while stack:
+            x, _, path = stack.pop()
+            if x == t:
+                found = path
+                break
+            for (y, k, sg) in adj.get(x, []):
+                if y not in seen:
+                    seen.add(y)
+                    stack.append((y, k, path + [(k, sg)]))
+        for (k, sg) in (found or []):
+            col[k] = sg if signed else 1
+        cols.append(col)
+    m, n = len(forest), len(coforest)
+    return [cols[j][i] for i in range(m) for j in range(n)]
